@@ -128,9 +128,9 @@ CLAIMED = {
     "C30": {
         "category": "other",
         "design_ref": "DESIGN.md section 6, C30",
-        "technique": "Kani bounded harnesses on the real elf::init_fini_priority / parse_priority_suffix (names: family + <= 6 bytes, and every name <= 9 bytes) and on the real elf_writer::should_reverse_contents over nondeterministic File/OutputSections storage with a symbolic section name, type and flags (names <= 12 bytes)",
+        "technique": "Kani bounded harnesses on the real elf::init_fini_priority / parse_priority_suffix (names: family + <= 6 bytes, and every name <= 9 bytes) and on the real elf_writer::should_reverse_contents over nondeterministic File/OutputSections storage with a symbolic section name, type and flags (names of 5, 6, 9 bytes in the quick tier; 0, 3, 7, 11, 12 and per-priority secondaries in the thorough tier; memchr replaced by its contract)",
         "text": "PRIORITY KEY AND REVERSAL PREDICATE ONLY, BOUNDED by name length - that the output order follows the key (a std stable sort) and input order within a priority are not decided. CBMC proves the key equals GNU ld's SORT_BY_INIT_PRIORITY key (.init_array.N/.fini_array.N -> N, .ctors.N/.dtors.N -> 65535-N, unsuffixed -> 65535, anything else -> none) and that an input section's words are reversed exactly when it lands in .init_array/.fini_array (directly or through a per-priority secondary) and its NAME starts with .ctors/.dtors, whatever its section type and flags.",
-        "note": "Priorities above 65535 are clamped by wild where GNU ld keeps the number (GCC never emits them): order-preserving but not exact, recorded, not a finding. Trusted: the transcription of ld's get_init_priority and of the default script's KEEP(SORT_BY_INIT_PRIORITY ...) lines.",
+        "note": "Priorities above 65535 are clamped by wild where GNU ld keeps the number (GCC never emits them): order-preserving but not exact, recorded, not a finding. Trusted: the transcription of ld's get_init_priority and of the default script's KEEP(SORT_BY_INIT_PRIORITY ...) lines; memchr::memchr's contract (first index of the needle) in place of its SSE2 implementation.",
     },
     "C36": {
         "category": "other",
@@ -149,7 +149,7 @@ CLAIMED = {
 }
 
 # properties whose check has run green on the unchanged tree (only these are claimed)
-READY = {"C01", "C02", "C09", "C12", "C13", "C14", "C16", "C17", "C08", "C11", "C15", "C22", "C23", "C29", "C31", "C36"}
+READY = {"C01", "C02", "C09", "C12", "C13", "C14", "C16", "C17", "C08", "C11", "C15", "C22", "C23", "C29", "C30", "C31", "C36"}
 
 PENDING = {
     pid: "check under construction in this session (planned claim, see DESIGN.md section 6); not claimed until its obligations run green"
